@@ -205,25 +205,25 @@ pub fn build_cases(cfg: &Cfg) -> Vec<Case> {
         let words = words_upto(n, 3);
         if finite.is_some() {
             // all one-generator subgroups, sampled two-generator subgroups
-            let limit1 = cfg.tier.pick(40, 400);
+            let limit1 = cfg.tier.pick(120, 400);
             for w in words.iter().take(limit1) {
                 cases.push(Case { subgens: vec![w.clone()], ..base.clone() });
             }
-            for _ in 0..cfg.tier.pick(25, 300) {
+            for _ in 0..cfg.tier.pick(120, 600) {
                 let a = words[rng.below(words.len())].clone();
                 let b = words[rng.below(words.len())].clone();
                 cases.push(Case { subgens: vec![a, b], ..base.clone() });
             }
-            for _ in 0..cfg.tier.pick(5, 40) {
+            for _ in 0..cfg.tier.pick(20, 80) {
                 let len = 4 + rng.below(8);
                 let w: Word = (0..len).map(|_| { let g = rng.range(1, n as i64); if rng.chance(1, 2) { g } else { -g } }).collect();
                 cases.push(Case { subgens: vec![reduce(&w)].into_iter().filter(|w| !w.is_empty()).collect(), ..base.clone() });
             }
         }
         // finite-index subgroups of any group (finite or not) through Schreier generators of low-index actions
-        let k = if n <= 2 { cfg.tier.pick(4, 6) } else { cfg.tier.pick(3, 4) };
+        let k = if n <= 2 { cfg.tier.pick(5, 7) } else { cfg.tier.pick(4, 5) };
         if let Some(tables) = groups::low_index(&g.pres, k, 200_000) {
-            for t in tables.iter().take(cfg.tier.pick(12, 60)) {
+            for t in tables.iter().take(cfg.tier.pick(40, 200)) {
                 let sg = schreier_generators(t);
                 if !sg.is_empty() {
                     cases.push(Case { name: format!("{} / stabiliser of an index-{} action", g.name, t.rows()), pres: g.pres.clone(), subgens: sg, known_order: None });
@@ -234,9 +234,9 @@ pub fn build_cases(cfg: &Cfg) -> Vec<Case> {
     // fundamental groups of spherical 2D symbols: the library's reduced presentation and the
     // redundant textbook presentation (one generator per chamber facet)
     let mut count = 0;
-    for s in gen::connected_sets_upto(2, cfg.tier.pick(3, 4)) {
+    for s in gen::connected_sets_upto(2, cfg.tier.pick(4, 5)) {
         gen::for_all_branchings(&s, &|_, _| vec![1, 2, 3, 4, 5], &mut |x| {
-            if gen::is_spherical_2d(x) && count < cfg.tier.pick(150, 1500) {
+            if gen::is_spherical_2d(x) && count < cfg.tier.pick(600, 4000) {
                 count += 1;
                 let red = pi1::textbook_pi1(x);
                 cases.push(Case { name: format!("pi1 of {} (reduced textbook presentation)", x.to_text()), pres: red.pres.clone(), subgens: vec![], known_order: None });
